@@ -348,3 +348,86 @@ func VfCrashVersionedDeleteByID() {
 	_, err = q.PutObject(vfCtx(), s3response.PutObjectInput{Bucket: vfStr("bkt"), Key: &key, Body: bytes.NewReader([]byte("Z")), ContentLength: &one})
 	zzvf.Assert(err == nil, "key-writable-after-crash")
 }
+
+// VfCrashVersionedWriters: C11 – the key holds V1 (written while versioning was enabled); the bucket is enabled or suspended;
+// an overwriting PutObject, a DeleteObject without id or a CompleteMultipartUpload onto the key is killed before an
+// arbitrary file-system step. After a restart the key reads as complete V1 or as the complete new state, and V1 stays
+// retrievable byte-exact under its id in every case.
+func VfCrashVersionedWriters() {
+	vfWorld()
+	zzvfos.M.OTmpfile = zzvf.Choice("otmpfile_supported", 2) == 1
+	cfg := vfConfig{versioning: true}
+	p := vfNewPosix(cfg)
+	vfMustBucket(p, "bkt")
+	zzvf.Assert(p.PutBucketVersioning(vfCtx(), "bkt", types.BucketVersioningStatusEnabled) == nil, "setup-enable-versioning")
+	key := "k"
+	one := int64(1)
+	oldBody, newBody := []byte("O"), []byte("N")
+	out, err := p.PutObject(vfCtx(), s3response.PutObjectInput{Bucket: vfStr("bkt"), Key: &key, Body: bytes.NewReader(oldBody), ContentLength: &one})
+	zzvf.Assert(err == nil, "setup-first-version")
+	v1 := out.VersionID
+	if zzvf.Choice("suspended", 2) == 1 {
+		zzvf.Assert(p.PutBucketVersioning(vfCtx(), "bkt", types.BucketVersioningStatusSuspended) == nil, "setup-suspend-versioning")
+	}
+	op := zzvf.Choice("operation", 3) // 0 put, 1 delete, 2 multipart completion
+	var up s3response.InitiateMultipartUploadResult
+	var partETag *string
+	pn := int32(1)
+	if op == 2 {
+		up, err = p.CreateMultipartUpload(vfCtx(), s3response.CreateMultipartUploadInput{Bucket: vfStr("bkt"), Key: &key})
+		zzvf.Assert(err == nil, "setup-upload")
+		pr, err := p.UploadPart(vfCtx(), &s3.UploadPartInput{Bucket: vfStr("bkt"), Key: &key, UploadId: &up.UploadId, PartNumber: &pn, Body: bytes.NewReader(newBody), ContentLength: &one})
+		zzvf.Assert(err == nil, "setup-part")
+		if err != nil {
+			return
+		}
+		partETag = pr.ETag
+	}
+	var opErr error
+	crashed := vfCrashRun(100, func() {
+		switch op {
+		case 0:
+			_, opErr = p.PutObject(vfCtx(), s3response.PutObjectInput{Bucket: vfStr("bkt"), Key: &key, Body: bytes.NewReader(newBody), ContentLength: &one})
+		case 1:
+			_, opErr = p.DeleteObject(vfCtx(), &s3.DeleteObjectInput{Bucket: vfStr("bkt"), Key: &key})
+		case 2:
+			_, opErr = p.CompleteMultipartUpload(vfCtx(), &s3.CompleteMultipartUploadInput{Bucket: vfStr("bkt"), Key: &key, UploadId: &up.UploadId,
+				MultipartUpload: &types.CompletedMultipartUpload{Parts: []types.CompletedPart{{PartNumber: &pn, ETag: partETag}}}})
+		}
+	})
+	if crashed {
+		zzvf.Reach("crashed")
+	} else {
+		zzvf.Reach("completed-without-crash")
+		zzvf.Assert(opErr == nil, "operation-succeeds")
+	}
+	q := vfNewPosix(cfg)
+	present, data, etag, coherent := vfKeyState(q, key)
+	zzvf.Assert(coherent, "length-matches-data-after-crash")
+	isOld := zzvf.And(present, zzvf.BytesEq(data, oldBody), etag == vfQuotedMD5(oldBody))
+	isNewData := zzvf.And(present, zzvf.BytesEq(data, newBody))
+	switch op {
+	case 0:
+		zzvf.Assert(zzvf.Or(isOld, zzvf.And(isNewData, etag == vfQuotedMD5(newBody))), "overwrite-leaves-complete-old-or-complete-new-object")
+		if !crashed {
+			zzvf.Assert(isNewData, "acknowledged-upload-persists")
+		}
+	case 1:
+		zzvf.Assert(zzvf.Or(!present, isOld), "delete-leaves-complete-object-or-nothing")
+		if !crashed {
+			zzvf.Assert(!present, "acknowledged-delete-persists")
+		}
+	case 2:
+		zzvf.Assert(zzvf.Or(isOld, isNewData), "completion-leaves-complete-old-or-complete-new-object")
+		if !crashed {
+			zzvf.Assert(isNewData, "acknowledged-completion-persists")
+		}
+	}
+	g, gerr := q.GetObject(vfCtx(), &s3.GetObjectInput{Bucket: vfStr("bkt"), Key: &key, VersionId: &v1, Range: vfStr("")})
+	zzvf.Assert(gerr == nil, "previous-version-retrievable-by-id-after-crash")
+	if gerr == nil {
+		b, _ := io.ReadAll(g.Body)
+		zzvf.Assert(zzvf.BytesEq(b, oldBody), "previous-version-content-intact-after-crash")
+		zzvf.Assert(g.ETag != nil && *g.ETag == vfQuotedMD5(oldBody), "previous-version-etag-intact-after-crash")
+	}
+}
